@@ -172,3 +172,13 @@ Proof. intros H Hl Hp. cbn [astep]. unfold forced_liquidation. rewrite H. unfold
 Lemma available_cash g a :
   cash g a == total_value g a - position_equity a - acc_margin g a - a_frozen a + a_liab a + interest g a - sum_pending (a_pending a).
 Proof. unfold cash, total_value. ring. Qed.
+
+(* the pre-open purge drops nothing of value: the equity of what it drops adds up to zero, and an entry with a receivable is never dropped *)
+Lemma purgeable_equity_zero entries : purgeable entries = true -> Forall (fun e => equity (fst e) (snd e) == 0) entries.
+Proof. unfold purgeable. rewrite forallb_forall. intros H. apply Forall_forall. intros e He. specialize (H e He).
+  apply andb_prop in H as [_ H]. apply qeq_b_true. exact H. Qed.
+Lemma purgeable_keeps_receivable c p d v : pc_kind c = StockPos -> p_recv p = Some (d, v) -> ~ v == 0 -> p_qty p == 0 ->
+  purgeable [(c, p)] = false.
+Proof. intros K R V Z. unfold purgeable. cbn [forallb fst snd]. rewrite andb_true_r.
+  destruct (qeq_b (p_qty p) 0) eqn:E; [|reflexivity]. cbn [andb]. apply Bool.not_true_is_false. intro H. apply qeq_b_true in H.
+  unfold equity, receivable in H. rewrite K, R, E in H. revert H. qnorm. intros H. apply V. lra. Qed.
